@@ -790,7 +790,18 @@ def r56(orig, rule):
     return '%s(match %s { Some(%s) => %s, None => None }) %s' % (pre, e, x, b, tail)
 
 
+def r57(orig, rule):
+    # let V = P.entry(E).or_default();   ->   let NAME = E; let V = P.entry(NAME).or_default();       (P a field path: a place, nothing to
+    #   evaluate; the key expression is evaluated first either way.  Naming the key lets a proof block talk about it.)
+    s = norm(orig)
+    name = rule.split()[1]
+    m = _m(r'let (%s) = ((?:%s \. )*%s) \. entry \( (.+) \) \. or_default \( \) ;' % (ID, ID, ID), s)
+    v, pth, e = m.groups()
+    return 'let %s = %s; let %s = %s.entry(%s).or_default();' % (name, e, v, pth, name)
+
+
 GENERATORS = {
+    'R57': r57,
     'R55': r55, 'R56': r56,
     'R54': r54,
     'R53': r53,
